@@ -18,6 +18,19 @@ def tarr(t):
     return np.array(t, dtype="int64").astype("datetime64[s]").astype("datetime64[ns]")
 
 
+def epoch32(t):
+    """Whole epoch seconds in the narrowest of int32 / uint32 / int64 that holds them (netCDF time variables are
+    commonly 32 bit); fractional seconds stay float64."""
+    if any(float(v) != int(v) for v in t):
+        return np.array(t, dtype="float64")
+    a = np.array(t, dtype="int64")
+    if a.size and a.min() >= -2 ** 31 and a.max() < 2 ** 31:
+        return a.astype("int32")
+    if a.size and a.min() >= 0 and a.max() < 2 ** 32:
+        return a.astype("uint32")
+    return a
+
+
 def flags(rec, site, result, n, **info):
     """Normalise a QC result to a list of python ints (masked entries become None). Reports a disagreement
     (and returns SKIP if that is excluded) when the result is not a 1-d array-like of n integer values."""
